@@ -25,6 +25,8 @@ type provProfile struct {
 	faults                                                                 bool // inject failures of external calls before blocks
 	prelaunch                                                              int  // consumers created, opted into and launched before the random part
 	wInfr                                                                  int  // infraction-parameter updates of launched consumers
+	wReward                                                                int  // ICS reward transfers, denom registration, tax
+	rewEpochs                                                              int
 	keyPool                                                                int  // number of extra consumer keys (default 10)
 	nvExtra                                                                int  // validator ids that may be created later
 	replenish                                                              int64
@@ -197,7 +199,7 @@ func (p *provRunner) ownerOf(c string) string {
 }
 
 func (p *provRunner) genOne(r *Rng, prof provProfile) string {
-	ws := []int{prof.wCreate, prof.wUpdate, prof.wRemove, prof.wOpt, prof.wAssign, prof.wStake, prof.wBlock, prof.wChan, prof.wSlash, prof.wMisc, prof.wParams, prof.wVal, prof.wInfr}
+	ws := []int{prof.wCreate, prof.wUpdate, prof.wRemove, prof.wOpt, prof.wAssign, prof.wStake, prof.wBlock, prof.wChan, prof.wSlash, prof.wMisc, prof.wParams, prof.wVal, prof.wInfr, prof.wReward}
 	switch pickWeighted(r, ws) {
 	case 0: // create
 		chain := fmt.Sprintf("c%d-1", r.intn(4))
@@ -361,6 +363,37 @@ func (p *provRunner) genOne(r *Rng, prof provProfile) string {
 		c := p.pickConsumer(r)
 		v := r.intn(prof.nv)
 		return fmt.Sprintf("commission v=%d c=%s rate=%s signer=%d", v, c, []string{"0.050000000000000000", "0.100000000000000000", "0.010000000000000000", "1.000000000000000000"}[r.intn(4)], v)
+	case 13:
+		p.chanSeq++
+		switch r.intn(10) {
+		case 0:
+			return fmt.Sprintf("denoms s=%s add=%s rm=%s", []string{"gov", "gov", "gov", "u1"}[r.intn(4)], []string{"stake", "photon", "mote", ""}[r.intn(4)], []string{"", "", "stake", "photon"}[r.intn(4)])
+		case 1:
+			c := p.pickConsumer(r)
+			return fmt.Sprintf("cdenoms s=%s c=%s denoms=%s", p.ownerOf(c), c, []string{"", "stake", "photon", "mote", "stake+mote"}[r.intn(5)])
+		case 2:
+			return fmt.Sprintf("tax rate=%s", []string{"0.020000000000000000", "0.000000000000000000", "0.100000000000000000", "0.333333333333333333", "1.000000000000000000"}[r.intn(5)])
+		default:
+			c := "-"
+			if r.chance(75) {
+				c = p.pickConsumer(r)
+			}
+			amt := []int64{1, 2, 3, 7, 10, 99, 100, 1000, 12345, 1000003}[r.intn(10)] + r.i64n(3)
+			s := fmt.Sprintf("reward c=%s denom=%s amt=%d seq=%d", c, rewardDenoms[r.intn(3)], amt, p.chanSeq)
+			if r.chance(5) {
+				s += " to=other"
+			}
+			if r.chance(4) {
+				s += " fail=1"
+			}
+			if c == "-" && r.chance(50) {
+				s += " memo=plain"
+			}
+			if c == "-" && r.chance(75) {
+				s += " via=" + p.pickConsumer(r)
+			}
+			return s
+		}
 	case 12:
 		// infraction-parameter requests of launched consumers: few distinct values, so that equal
 		// requests (cancel), replacements and several consumers due at the same time are frequent
@@ -592,6 +625,9 @@ func genProv(prof provProfile) func(r *Rng, run Runner, n int, tier string) {
 		if prof.withKeys {
 			wk = " withkeys=1"
 		}
+		if prof.rewEpochs != 0 {
+			wk += fmt.Sprintf(" rewepochs=%d", prof.rewEpochs)
+		}
 		if prof.replenish != 0 {
 			wk += fmt.Sprintf(" replenish=%d frac=%s", prof.replenish, prof.frac)
 		}
@@ -663,5 +699,8 @@ func init() {
 	inf := provProfile{name: "infraction", nv: 4, maxvals: 4, M: 4, epoch: 2, unb: 8 * sec, prelaunch: 5,
 		wCreate: 2, wUpdate: 6, wRemove: 1, wOpt: 6, wStake: 3, wBlock: 22, wInfr: 40}
 	streams["infraction"] = StreamDef{New: func(t *Trace) Runner { return newProvRunner(t) }, Gen: genProv(inf)}
+	rw := provProfile{name: "rewards", nv: 5, maxvals: 5, M: 4, epoch: 2, unb: 12 * sec, prelaunch: 4, rewEpochs: 2, lowPower: true,
+		wCreate: 2, wUpdate: 3, wRemove: 1, wOpt: 14, wAssign: 2, wStake: 8, wBlock: 26, wMisc: 6, wChan: 6, wReward: 38}
+	streams["rewards"] = StreamDef{New: func(t *Trace) Runner { return newProvRunner(t) }, Gen: genProv(rw)}
 	streams["epoch"] = StreamDef{New: func(t *Trace) Runner { return newProvRunner(t) }, Gen: genProv(ep)}
 }
